@@ -7326,8 +7326,8 @@ class FrameAssignBLoc(FrameAssign):
             # if we produced any invalid entries, cannot select them
             invalid_found = (value == FILL_VALUE_DEFAULT).values
             if invalid_found.any():
-                if not key.flags.writeable:
-                    key = key.copy() # mutate a copy
+                # always mutate a copy: a writeable key is the caller's own array
+                key = key.copy()
                 key[invalid_found] = False
 
             blocks = self.container._blocks.extract_bloc_assign_by_blocks(key, values)
